@@ -1,13 +1,62 @@
 package main
 
 import (
+	"fmt"
 	"go/types"
+	"strings"
 
 	"golang.org/x/tools/go/ssa"
 )
 
+// atomicOp: sequentially consistent read-modify-write on the exact bit-vector value. The value observed
+// by each operation is arbitrary (any interference by other goroutines); per-function contracts are stated
+// relative to the observed values apre(k)/apost(k) (k-th atomic operation of this call, from 0).
 func (r *Run) atomicOp(st *State, fr *Frame, name string, recv T, args []Val, sig *types.Signature, dst ssa.Value, in ssa.Instruction) []*State {
-	r.setResult(st, fr, dst, r.freshResults(st, sig, "atomic"))
+	e := r.e
+	w := 64
+	if strings.Contains(name, "Int32") || strings.Contains(name, "Uint32") {
+		w = 32
+	}
+	if !e.bv {
+		e.fail("atomic operation %s in an int-mode function (declare mode bv)", name)
+		r.setResult(st, fr, dst, r.freshResults(st, sig, "atomic"))
+		return nil
+	}
+	k := 0
+	fmt.Sscan(st.Facts["atomics"], &k)
+	pre := e.freshConst(fmt.Sprintf("apre%d", k), BV(w))
+	post := pre
+	var res []Val
+	op := name[strings.LastIndex(name, ".")+1:]
+	switch op {
+	case "Load":
+		res = []Val{pre}
+	case "Add":
+		d := e.asTerm(args[0], BV(w))
+		post = App(BV(w), "bvadd", pre, d)
+		res = []Val{post}
+	case "Store":
+		post = e.asTerm(args[0], BV(w))
+	case "CompareAndSwap":
+		old := e.asTerm(args[0], BV(w))
+		nw := e.asTerm(args[1], BV(w))
+		ok := e.freshConst(fmt.Sprintf("cas%d", k), SBool)
+		st.assume(Eq(ok, Eq(pre, old)))
+		post = Ite(ok, nw, pre)
+		res = []Val{ok}
+	case "Swap":
+		post = e.asTerm(args[0], BV(w))
+		res = []Val{pre}
+	default:
+		e.fail("atomic op %s", name)
+		res = r.freshResults(st, sig, "atomic")
+	}
+	st.Ghost[fmt.Sprintf("atomic.pre:%d", k)] = pre
+	st.Ghost[fmt.Sprintf("atomic.post:%d", k)] = post
+	st.Ghost[fmt.Sprintf("atomic.ref:%d", k)] = recv
+	st.Ghost[fmt.Sprintf("atomic.op:%d", k)] = e.strConst(op)
+	st.Facts["atomics"] = fmt.Sprintf("%d", k+1)
+	r.setResult(st, fr, dst, res)
 	return nil
 }
 
